@@ -65,13 +65,39 @@ Print Assumptions C07_nack_set.
 
 (* ---------------------------------------------------------------- RTCP compound packets *)
 (* every list of well-formed SR / RR / SDES / BYE / RTPFB / PSFB packets; for RTPFB
-   the list equality needs `nack_canonical` (consecutive numbers advance by
-   1..65520 mod 2^16, e.g. ascending lists, also across the wrap) *)
+   equality of the `lost` LIST needs `nack_canonical` (each number lands on a higher
+   bit of the open FCI entry or opens a new one); C07_nack_canonical_lists below
+   shows that numerically ascending lists -- what the receiver passes -- and lists in
+   sequence order across the wrap are canonical.  Other lists keep their SET
+   (C07_nack_set). *)
 Theorem C07_rtcp_roundtrip : forall ps,
   Forall wf_rtcp ps ->
   exists b, rtcp_bytes_all ps = Ok b /\ bytes_ok b /\ rtcp_parse b = Ok ps.
 Proof. exact rtcp_roundtrip. Qed.
 Print Assumptions C07_rtcp_roundtrip.
+
+Theorem C07_nack_canonical_lists : forall pid rest,
+  0 <= pid < 65536 -> nack_ascending pid rest \/ nack_chain pid rest -> nack_canonical (pid :: rest).
+Proof.
+  intros pid rest Hp [H|H]; [now apply nack_canonical_ascending|now apply nack_canonical_chain].
+Qed.
+Print Assumptions C07_nack_canonical_lists.
+
+(* serialisation is injective on well-formed compound packets *)
+Theorem C07_rtcp_injective : forall ps qs b,
+  Forall wf_rtcp ps -> Forall wf_rtcp qs ->
+  rtcp_bytes_all ps = Ok b -> rtcp_bytes_all qs = Ok b -> ps = qs.
+Proof.
+  intros ps qs b Hp Hq H1 H2.
+  destruct (rtcp_roundtrip ps Hp) as (b1 & E1 & _ & P1). destruct (rtcp_roundtrip qs Hq) as (b2 & E2 & _ & P2).
+  congruence.
+Qed.
+Print Assumptions C07_rtcp_injective.
+
+(* the fuel given to the REMB exponent loop suffices for every bitrate *)
+Theorem C07_remb_fuel : forall b ssrcs, pack_remb_fci b ssrcs <> OutOfFuel.
+Proof. exact pack_remb_fci_fuel. Qed.
+Print Assumptions C07_remb_fuel.
 
 (* ---------------------------------------------------------------- header extensions *)
 (* unpack (pack xs) = xs for every list of elements with ids 1..255 and values of
@@ -106,6 +132,17 @@ Theorem C07_rtp_roundtrip : forall m p pad,
   exists b, rtp_serialize m p pad = Ok b /\ bytes_ok b /\ rtp_parse m b = Ok p.
 Proof. exact rtp_roundtrip. Qed.
 Print Assumptions C07_rtp_roundtrip.
+
+Theorem C07_rtp_injective : forall m p q pad pad' b,
+  ids_ok m -> wf_rtp m p pad -> wf_rtp m q pad' ->
+  rtp_serialize m p pad = Ok b -> rtp_serialize m q pad' = Ok b -> p = q.
+Proof.
+  intros m p q pad pad' b Hm Hp Hq H1 H2.
+  destruct (rtp_roundtrip m p pad Hm Hp) as (b1 & E1 & _ & P1).
+  destruct (rtp_roundtrip m q pad' Hm Hq) as (b2 & E2 & _ & P2).
+  congruence.
+Qed.
+Print Assumptions C07_rtp_injective.
 
 (* ---------------------------------------------------------------- RTX *)
 (* unwrap (wrap p) restores every field of p; wrap_rtx itself never carries
@@ -186,9 +223,24 @@ Definition ex_rtcp : list rtcp :=
    Psfb 15 3 4 [82; 69; 77; 66; 0; 0; 0; 0];
    Bye [5; 6]].
 
+Example C07_example_nack_canonical : nack_canonical [65534; 65535; 0; 1; 17; 20000] /\
+                                      nack_canonical [0; 1; 65534; 65535].
+Proof.
+  split.
+  - apply nack_canonical_chain; [lia|]. cbn [nack_chain]. lia.
+  - apply nack_canonical_ascending; [lia|]. cbn [nack_ascending]. lia.
+Qed.
+
 Example C07_example_wf_rtcp : Forall wf_rtcp ex_rtcp.
 Proof.
-  unfold ex_rtcp. repeat constructor; cbn; unfold RtcpPktP.is_u32, byte_ok; try lia.
+  unfold ex_rtcp. repeat apply Forall_cons; try apply Forall_nil; cbn [wf_rtcp]; unfold RtcpPktP.is_u32.
+  - split; [lia|]. split; [|cbn [length]; lia]. repeat constructor; cbn; unfold RtcpPktP.is_u32; lia.
+  - split; [|split; [cbn [length]; lia|cbn; lia]].
+    repeat constructor; cbn [fst snd length]; unfold RtcpPktP.is_u32, byte_ok; lia.
+  - split; [lia|]. split; [lia|]. split; [lia|]. split; [apply C07_example_nack_canonical|cbn; lia].
+  - split; [lia|]. split; [lia|]. split; [lia|]. split; [repeat constructor; unfold byte_ok; lia|].
+    split; [reflexivity|cbn; lia].
+  - split; [|cbn [length]; lia]. repeat constructor; unfold RtcpPktP.is_u32; lia.
 Qed.
 
 Example C07_example_nack_wrap :
